@@ -30,6 +30,10 @@ CHECKS = {
    technique="TLA+ arena model Scratch.tla: model-checked discipline + replay of the H4 take log of every scratch-taking call run in an exact-size canary-guarded window; size-query monotonicity table validated by TLC",
    text="Scratch.tla models take_slice_aligned exactly (64-byte re-alignment, failure iff aligned bytes < request, remainder/taken hand-out). TLC checks the discipline over all call/return/split interleavings and refutes the raw-sum lemma the size formulas implicitly rely on. Every scratch-taking HAL call of the TLC-generated corpora then runs with a scratch window of exactly the declared size on 4 back-ends x 2 scratch fills; hook H4 logs each take and TLC replays the log against the arena model (no failed take, takes derive from the window, high-water <= declared, canaries intact) and requires results independent of the scratch fill.",
    note="20 HAL (operation, tmp_bytes) pairs so far of ~120; core/CKKS/bin-fhe pairs pending. The replay cannot observe releases, so two simultaneously live overlapping takes are only excluded by the model check of the discipline plus Rust's borrow rules."),
+ "C18": dict(level=MC, design="§2 C18",
+   technique="TLA+ contract Wire.tla (grammar + ReadOK over exact byte-sequence naturals): reference reader model-checked / wrapping reader refuted; TLC-enumerated streams fed to the real read_from; trace validated by TLC",
+   text="Wire.tla holds the grammar of 11 serialisable types and the contract of read_from (Ok only for complete, overflow-free consistent, fitting streams; such streams must be accepted; Err leaves metadata unchanged; never a panic/abort; dimensions consistent with the buffer afterwards), over naturals represented as byte sequences so 2^61, 2^64-1 and overflowing products are exact. TLC model-checks a reference reader against it and refutes the wrapping reader, then enumerates every truncation point, every header field x boundary dictionary, the overflowing combinations and three receivers per type; the grammar-free harness applies the byte edits, runs the real read_from in a child process and logs header bytes; TLC re-parses them and decides.",
+   note="hal VecZnx/ScalarZnx/MatZnx and core LWE/GLWE/GGLWE/GGSW (+compressed) covered; nested key types and bin-fhe keys pending. Debug-assertion (overflow-check) builds not yet run. Receiver capacity is taken from the allocation formula."),
 }
 NA_REASON = "check not built yet in this round (planned in DESIGN.md §2); not claimed"
 
